@@ -40,9 +40,11 @@ class C19(Check):
               "replace/rename onto it) or a failing read is treated as a miss; alarm = direct open(final,'w') AND unprotected load",
         "D2": "on a miss the computed value itself is returned and saved under the path the hit path reads; hit and miss return the "
               "same key; the cache directory is created before any worker runs",
+        "D4": "the default key -> file name function is deterministic across processes and runs (no hash(), id(), time, random, pid): a rerun "
+              "must find the files of the previous run",
         "D3": "every public scan / Monte-Carlo entry that accepts a cache forwards it to parallelise",
     }
-    floors = {"D1": 1, "D2": 5, "D3": 4}
+    floors = {"D1": 1, "D2": 5, "D3": 4, "D4": 1}
     decided = [
         "a kill at any instant of a result write cannot leave a truncated file under a name the rerun trusts",
         "cached and uncached runs return the same (key, value) pairs; the rerun reads what the first run saved",
@@ -174,6 +176,16 @@ class C19(Check):
                           witness="a partially filled cache changes the order / content of the returned list")
         else:
             self.holds("D2", MOD, "parallelise", "cache-access-only-in-worker", par, "cached results are loaded and saved only inside _load_or_run, per input")
+        # ---- D4
+        nf = mod.func(defaults.get("name_fn", "_pickle_name"))
+        bad = [c for c in ast.walk(nf) if isinstance(c, ast.Call) and norm(c.func).split(".")[-1] in ("hash", "id", "time", "time_ns", "random", "uuid4", "uuid1", "getpid", "monotonic")]
+        uses_key = nf.args.args[0].arg in {n.id for n in ast.walk(nf.body[-1]) if isinstance(n, ast.Name)}
+        if bad or not uses_key:
+            self.violated("D4", MOD, nf.name, "deterministic-name", bad[0] if bad else nf,
+                          f"`{norm(nf.body[-1])}` does not map a key to the same file name in every process/run" if bad else "the file name does not depend on the key",
+                          witness="PYTHONHASHSEED differs between two runs: the rerun recomputes everything (or two keys share one file)")
+        else:
+            self.holds("D4", MOD, nf.name, "deterministic-name", nf, f"`{norm(nf.body[-1])}`: a pure function of the key")
         # ---- D3
         for rel in ("scan.py", "mc.py"):
             m2 = self.prog.module(rel)
@@ -203,6 +215,7 @@ class C19(Check):
             Variant("publish-inside-with", MOD, "_pickle_save", "    with tmp.open('wb') as fp:\n        pickle.dump(data, fp)\n    tmp.replace(file)", "    with tmp.open('wb') as fp:\n        pickle.dump(data, fp)\n        tmp.replace(file)", expect="D1|", quick=True),
             Variant("hits-loaded-up-front", MOD, "parallelise", "    if cache is not None:\n        cache.tmp_dir.mkdir(parents=True, exist_ok=True)\n",
                     "    pre = []\n    if cache is not None:\n        cache.tmp_dir.mkdir(parents=True, exist_ok=True)\n        pre = [(k, cache.load_fn(cache.tmp_dir / cache.name_fn(k))) for k, _ in inputs if (cache.tmp_dir / cache.name_fn(k)).exists()]\n", expect="D2|"),
+            Variant("hash-in-file-name", MOD, "_pickle_name", "f'{k}.p'", "f'{hash(k)}.p'", expect="D4|"),
             Variant("return-uncomputed", MOD, "_load_or_run", "    return (k, res)", "    return (k, v)", expect="D2|", quick=True),
             Variant("save-under-other-path", MOD, "_load_or_run", "cache.save_fn(file, res)", "cache.save_fn(cache.tmp_dir / str(k), res)", expect="D2|"),
             Variant("no-mkdir", MOD, "parallelise", "    if cache is not None:\n        cache.tmp_dir.mkdir(parents=True, exist_ok=True)\n", "", expect="D2|"),
